@@ -22,10 +22,11 @@ import numpy as np
 
 import common
 import c10_extra
+import c10_src
 from common import Ctx, Finding, Outcome
 
 PROPERTY = "C10"
-LEAN_TARGETS = ["QcelVerif.Props.C10", "QcelVerif.Props.C10Msgpack", "QcelVerif.Props.C10Text", "QcelVerif.Props.C10Kwargs", "QcelVerif.Driver.C10"]
+LEAN_TARGETS = ["QcelVerif.Props.C10", "QcelVerif.Props.C10Msgpack", "QcelVerif.Props.C10Text", "QcelVerif.Props.C10Kwargs", "QcelVerif.Model.SerializeAst", "QcelVerif.Model.SerializeSrc", "QcelVerif.Props.C10Src", "QcelVerif.Driver.C10"]
 DRIVER = "QcelVerif/Driver/C10.lean"
 THEOREMS = [
     ("QcelVerif.Ser.unhex_hex", "unhex (hex bs) = some bs for every byte string (json-ext data field)"),
@@ -62,10 +63,45 @@ THEOREMS = [
     ("QcelVerif.Ser.flat_msgpack_roundtrip", "plain msgpack at BYTE level: the flat tree is written and read back byte by byte"),
     ("QcelVerif.Ser.flat_msgpack_array_restored", "plain msgpack: an (n,m) ndarray goes out as the bytes of its flat element list, comes back as that list, and reshape(n,m) restores the rows"),
     ("QcelVerif.Ser.codec_calls_match_source", "every json./msgpack. call of util/serialization.py has exactly the callee, arity and keyword arguments the models assume (json.dumps: cls only; msgpack: default/use_bin_type=True; loads: object_hook, raw=False), the two JSON encoder classes ravel / build the _nd_ envelope, and ProtoModel.Config sets no json_loads/json_dumps — re-read from the source by ast on every run"),
+    ("QcelVerif.Ser.Src.msgpackext_encode_src", "msgpackext_encode AS TRANSLATED FROM THE SOURCE, on any ndarray of rank >= 1, returns exactly the hand model's envelope (bytes keys _nd_, dtype, data in that order; shape appended iff rank > 1)"),
+    ("QcelVerif.Ser.Src.msgpackext_encode_src_rank0", 'source-derived msgpackext_encode on a rank-0 array builds no envelope: it returns obj.tolist() (decay to the scalar)'),
+    ("QcelVerif.Ser.Src.msgpackext_encode_src_other", 'source-derived msgpackext_encode returns every non-ndarray value unchanged (the `return obj` fall-through after the pydantic guard)'),
+    ("QcelVerif.Ser.Src.jsonext_default_src", "JSONExtArrayEncoder.default as translated from the source returns exactly the hand model's json-ext envelope (str keys, hex data, shape iff rank > 1) on any ndarray of rank >= 1"),
+    ("QcelVerif.Ser.Src.jsonext_default_src_rank0", 'source-derived JSONExtArrayEncoder.default on a rank-0 array returns obj.tolist()'),
+    ("QcelVerif.Ser.Src.jsonext_default_src_other", 'source-derived JSONExtArrayEncoder.default refuses (TypeError) every non-ndarray leaf'),
+    ("QcelVerif.Ser.Src.json_flat_default_src", "JSONArrayEncoder.default as translated from the source hands an ndarray of rank >= 1 on as ravel().tolist(): the hand model's flat element list in buffer order"),
+    ("QcelVerif.Ser.Src.msgpack_flat_encode_src", 'msgpack_encode as translated from the source does the same (ravel().tolist())'),
+    ("QcelVerif.Ser.Src.msgpackext_decode_src", "msgpackext_decode as translated from the source equals the hand model's mpHook on EVERY decoded map (same array, same refusals, same error class)"),
+    ("QcelVerif.Ser.Src.jsonext_decode_src", "jsonext_decode as translated from the source equals the hand model's jxHook on every parsed object outside one evaluation-order corner (a bad `data` together with a missing `dtype`, where only the error class differs)"),
+    ("QcelVerif.Ser.Src.jsonext_decode_src_ok", "whenever the hand model's jxHook accepts an object the source-derived jsonext_decode returns the same array (no side condition)"),
+    ("QcelVerif.Ser.Src.jsonext_tree_src", 'whole trees: json.dumps(cls=JSONExtArrayEncoder) with the source-derived default is handed exactly jxEnc v (arrays of rank >= 1 at any depth)'),
+    ("QcelVerif.Ser.Src.json_flat_tree_src", 'whole trees: json.dumps(cls=JSONArrayEncoder) with the source-derived default is handed exactly flatEnc v (or both refuse an element kind outside the flat model)'),
+    ("QcelVerif.Ser.Src.msgpack_flat_tree_src", 'whole trees: msgpack.dumps(default=msgpack_encode) with the source-derived hook is handed exactly flatEnc v'),
+    ("QcelVerif.Ser.Src.msgpackext_tree_src", 'whole trees: msgpack.dumps(default=msgpackext_encode) with the source-derived hook is handed the tree with every ndarray leaf replaced by its envelope'),
+    ("QcelVerif.Ser.Src.mpEnc_mxEnc", "the bytes of that enveloped tree are the hand model's mpEnc v, for every tree"),
+    ("QcelVerif.Ser.Src.decW_jx_ok", "whatever the hand model's jxDec reads from a parsed JSON tree, json.loads(object_hook=<source-derived jsonext_decode>) reads the same"),
+    ("QcelVerif.Ser.Src.mpDecodeSrc_eq", "msgpack.loads(object_hook=<source-derived msgpackext_decode>) equals the hand model's mpDecode on EVERY byte string (decoder parameterised by the hook, proved equal at mpHook)"),
+    ("QcelVerif.Ser.Src.serialize_dispatch_src", "serialize's dispatch as translated from the source, for EVERY encoding string: the arm taken is that of the ASCII-lower-cased name among json / json-ext / msgpack / msgpack-ext, each calling its own *_dumps on data; anything else raises KeyError"),
+    ("QcelVerif.Ser.Src.deserialize_dispatch_src", "deserialize's dispatch as translated from the source, for every encoding string and blob: arm, isinstance assertion on the blob, callee *_loads; anything else KeyError"),
+    ("QcelVerif.Ser.Src.encodeSrc_eq", "serialize end to end from the source (dispatch -> wrapper -> keyword arguments -> hook body -> walker), for every encoding string and every tree with arrays of rank >= 1: the native writer chosen and the tree it is handed are the hand model's"),
+    ("QcelVerif.Ser.Src.readerSrc_eq", 'deserialize end to end from the source: for every encoding string and blob, the native reader and the object hook it is given (json, json-ext -> json.loads + jsonext_decode; msgpack, msgpack-ext -> msgpack.loads + msgpackext_decode)'),
+    ("QcelVerif.Ser.Src.deserialize_reads_serialize_src", 'for each of the four encodings (any letter case) the reader family deserialize runs, read from the source, is one that reads what serialize of that encoding wrote'),
+    ("QcelVerif.Ser.Src.ext_envelope_roundtrip_msgpack_src", 'headline restated: source-derived msgpackext_decode(source-derived msgpackext_encode(a)) = a (dtype, shape, bytes) for every well-formed array of rank >= 1, zero extents included'),
+    ("QcelVerif.Ser.Src.ext_envelope_roundtrip_json_src", 'headline restated: source-derived jsonext_decode(source-derived JSONExtArrayEncoder.default(a)) = a'),
+    ("QcelVerif.Ser.Src.jsonext_roundtrip_src", 'headline restated: json-ext round trip over whole trees with encoder and object hook both from the source'),
+    ("QcelVerif.Ser.Src.jsonext_reserialise_identical_src", 'headline restated: json-ext identical re-serialisation with the source-derived encoder / hook'),
+    ("QcelVerif.Ser.Src.msgpack_roundtrip_src", "headline restated: msgpack-ext byte-stream round trip with encoder, object hook and reader from the source: the bytes written are the hand model's and are read back to v"),
+    ("QcelVerif.Ser.Src.msgpack_reserialise_identical_src", 'headline restated: msgpack-ext identical re-serialisation with the source-derived functions'),
+    ("QcelVerif.Ser.Src.jsonext_decode_src_full", "jsonext_decode as translated from the source equals, on EVERY parsed object (no side condition), the order-explicit hook jxHookOrd (bytes.fromhex(obj['data']) evaluated before obj['dtype'] is looked up)"),
+    ("QcelVerif.Ser.Src.jxHookOrd_ok_iff", "the order-explicit hook and the hand model's jxHook accept exactly the same objects with the same result (they differ only in the error class of the corrupted-envelope corner)"),
+    ("QcelVerif.Ser.Src.jsonext_text_roundtrip_src", "headline restated at TEXT level: serialize(v, 'json-ext') with dispatch, wrapper, encoder class and default body from the source, printed by the model's json.dumps, is read back to v by the model's json.loads running the source-derived jsonext_decode"),
+    ("QcelVerif.Ser.Src.json_text_reserialise_identical_src", 'headline restated at TEXT level: identical re-serialisation (json-ext) with the source-derived pipeline'),
 ]
 TRUSTED_BASE = [
     "Lean 4.33 kernel; axioms per theorem audited on every run (subset of propext, Classical.choice, Quot.sound)",
-    "hand-written model Model/Serialize.lean of serialization.py:23-152,193-206,247-273,319-377, tied by byte-for-byte correspondence on the generated stream",
+    "hand-written model Model/Serialize.lean of serialization.py:23-152,193-206,247-273,319-377, tied by byte-for-byte correspondence on the generated stream AND (new) proved equal, for all inputs, to the functions regenerated from the source: every function body and both encoder classes' default methods of util/serialization.py are translated on every run (harness/c10_src.py, python ast -> Gen/SerializeSrc.lean, terms of Model/SerializeAst.lean; unknown constructs make the translator raise) and evaluated by Model/SerializeSrc.lean",
+    "what the evaluator takes as PRIMITIVES (stated, not derived): x.shape, x.dtype.str, np.ascontiguousarray, .tobytes(), .hex(), bytes.fromhex, np.frombuffer, arr.shape = ..., .ravel(), .tolist() (element decoding = the flat model's elemsOf), len, ASCII str.lower, ==, in, >, isinstance, truthiness, dict item assignment appending a new key; pydantic_encoder(x) and json.JSONEncoder.default(self, x) raise TypeError on every value tree (nothing pydantic knows survives .dict()); json.dumps(cls=)/msgpack.dumps(default=) walk containers and hand non-native leaves to the hook, *.loads(object_hook=) applies the hook bottom-up to every completed map (walkD / decW / mpDecW)",
+    "harness/c10_src.py (the ast translator) and the evaluator's reading of Python statement order are trusted as written; they are exercised three-way (implementation | hand model | source-derived) on every generated line",
     "hand-written model Model/JsonText.lean of CPython's json.dumps (default separators, ensure_ascii, allow_nan) / json.loads (strict) and of the flat encoders' ravel().tolist(): tied by byte-for-byte comparison of the TEXT the model prints with serialize(..., 'json'|'json-ext') and of the tree the model's parser reads from the implementation's text, on every generated payload",
     "float printing/parsing (float.__repr__, float()) is a PARAMETER of the text theorems (FloatCodec); they need only floatOk(codec, x) for the floats x that occur, which the driver evaluates for every float it prints with the concrete shortest-repr / correctly-rounded-parse codec of Model/JsonFloat.lean (nothing is proved about that codec; a wrong digit shows as a text mismatch)",
     "UTF-8 is Lean core's String codec (round trip proved in core, used as a theorem)",
@@ -75,6 +111,8 @@ TRUSTED_BASE = [
     "harness/c10.py + harness/c10_extra.py generators, the ast table / keyword-argument extractor and the Python oracle",
 ]
 ASSUMPTIONS = [
+    "the encoding-string dispatch is modelled for ASCII spellings (str.lower on non-ASCII letters such as U+212A KELVIN SIGN is outside the model); only the four names as the property spells them are DEMANDED by the oracle, other spellings are a model/implementation tie",
+    "source-derived jsonext_decode vs the hand model: equal on every object except a corrupted envelope whose 'data' is not a hex string AND whose 'dtype' is missing, where Python's evaluation order raises the buffer error before the KeyError (the hand model says KeyData; both refuse); for that corner the source-derived hook is proved equal to the order-explicit jxHookOrd, and the harness compares the implementation with the SOURCE-DERIVED side only (block order-corner); it is not generated in the hand-model tie",
     "payload dict keys are str (int keys are rejected by msgpack strict_map_key and stringified by json) and no user dict contains the key '_nd_' (the object hooks treat any such dict as an array envelope)",
     "integers within msgpack range [-2^63, 2^64); bare non-finite Python floats (+inf, -inf, NaN) ARE generated, at any depth of raw payloads and in every model field whose validation admits them (keywords/extras dicts, AtomicResult.return_result and properties, wavefunction matrices, OptimizationResult.energies, AlignmentMill.shift/rotation, BasisSet exponents/coefficients), under all four encodings: +-inf must come back == and of type float; NaN must come back as a float NaN (isnan on both sides; bit patterns of NaN are compared only inside ndarray bytes under the -ext encodings) and the second serialisation must be the identical payload; non-finite Molecule geometry is not generated (masses, charges and bond orders are rejected by validation)",
     "raw ndarrays nested in containers are demanded only for the two -ext encodings (the flat encodings ravel by design); rank-0 arrays decay to scalars and are checked for value only",
@@ -109,8 +147,11 @@ RULE = (
     "automatic choice; thorough tier also one raw msgpack-ext payload above 2^31 bytes when 24 GiB are available; (non-finite) bare +inf/-inf/NaN floats at depth 0-3 of raw "
     "payloads, as dict values and beside arrays, float/complex arrays of every float dtype x layout with non-finite elements, x 4 encodings (flat encodings: the ravelled list, value "
     "for value); instances of all seven models with non-finite values injected into the fields whose validation admits them x 4 encodings + automatic choice + "
-    "parse_file(.json/.js/.msgpack) + Molecule.to_file/from_file. A case is distinct by (block, dtype, shape, layout, depth, "
-    "encoding) or (model, encoding, options, field-shape signature) and non-trivial when it carries an array that is not a C-contiguous little-endian "
+    "parse_file(.json/.js/.msgpack) + Molecule.to_file/from_file. THREE-WAY: every mp/mpd/jx/jxd/jt/jtd-hook/mpf line above is answered by the driver as "
+    "<hand model> || <source-derived> (the evaluator run on the term regenerated from util/serialization.py) and the two must be identical; dispatch block: "
+    "serialize/deserialize called with 20 fixed spellings of the encoding string (the four names, upper/mixed case, underscores, blanks, prefixes, unknown names, the empty string) plus "
+    "random case variants, str and bytes blobs, compared with the hand model and the source-derived dispatch; corrupted json-ext envelopes with a non-hex `data` and no `dtype` (evaluation-order corner) compared with the source-derived hook. A case is distinct by (block, dtype, shape, layout, depth, "
+    "encoding) or (model, encoding, options, field-shape signature) or (dispatch, spelling) and non-trivial when it carries an array that is not a C-contiguous little-endian "
     "float64 vector, a boundary-width scalar, an error branch, or a model instance with at least one multi-dimensional array field."
 )
 LEVEL_TEXT = (
@@ -122,13 +163,19 @@ LEVEL_TEXT = (
     "NaN/±Infinity, any depth), printer injectivity, whitespace tolerance around a document, and the composed text/byte-level statements "
     "jsonext_text_roundtrip, json_text_reserialise_identical, the plain-json and plain-msgpack round trips with arrays emitted as row-major flat "
     "lists and ravel/reshape mutually inverse; the keyword arguments of the json./msgpack. calls are re-read from the source and proved equal to what "
-    "the models assume. Still partial: (1) float.__repr__/float() are a parameter of the text theorems — the hypothesis floatOk is evaluated per float "
+    "the models assume. NEW: the encoder/decoder LOGIC itself is regenerated from the source on every run (all 14 functions and both encoder classes of "
+    "util/serialization.py translated by ast into a small statement/expression AST, evaluated on the model's own value trees) and PROVED equal to the hand model for all "
+    "inputs: the four default hooks on every ndarray (envelope keys, key kind, key ORDER, shape iff rank > 1, rank-0 decay, ravel().tolist(), fall-through), both object hooks on "
+    "every map (msgpackext_decode without exception; jsonext_decode outside one evaluation-order corner of corrupted envelopes where only the error class differs), whole trees "
+    "through the walkers, the msgpack byte reader parameterised by the hook, the serialize/deserialize dispatch for every encoding string, the wrappers' callees and keyword "
+    "arguments, and the round-trip / identical-re-serialisation headline theorems restated over the source-derived functions; the driver answers three-way. "
+    "What that does NOT cover: numpy/bytes/pydantic primitives and the third-party walkers are stated semantics (see trusted base), the translator itself is trusted. Still partial: (1) float.__repr__/float() are a parameter of the text theorems — the hypothesis floatOk is evaluated per float "
     "by the driver with a concrete codec that is itself only checked differentially (byte-for-byte against json.dumps on every generated float); "
     "(2) CPython's json module and the msgpack C extension are tied to the models byte-for-byte on everything generated, not verified; lone "
     "surrogates in str and the flat element decoding of f2/f4/complex/U/S arrays are outside the text model; (3) instance equality through pydantic "
     "validation is differential only (Python oracle, incl. payloads above 100 MiB and non-finite floats in every field that admits them)."
 )
-TECHNIQUE = "Lean 4 structural-induction proofs of codec round trips (msgpack bytes, JSON text) + decide over source-extracted tables and keyword arguments + byte-for-byte differential correspondence"
+TECHNIQUE = "source -> AST translation of util/serialization.py with an evaluator proved equal to the hand model + Lean 4 structural-induction proofs of codec round trips (msgpack bytes, JSON text) + decide over source-extracted tables and keyword arguments + byte-for-byte differential correspondence"
 
 ENCODINGS = ["json", "json-ext", "msgpack", "msgpack-ext"]
 EXT = ["json-ext", "msgpack-ext"]
@@ -350,7 +397,7 @@ def gen_tables(ctx):
         out.write_text(new)
 
 
-TRANSLATORS = [gen_tables]
+TRANSLATORS = [gen_tables, c10_src.gen_serialize_src]
 
 # ----------------------------------------------------------------------------------------------------------------
 # line protocol
@@ -930,6 +977,30 @@ def payload_cases(ctx):
     return out
 
 
+THREE_WAY_OPS = ("mp", "mpd", "jx", "jxd", "jt", "jtd", "mpf", "disp")
+
+
+def run_three(ctx, out: Outcome, lines):
+    """THREE-WAY: run the driver; the ops of THREE_WAY_OPS answer `<hand model> || <source-derived>` (right side `=` when
+    identical).  Returns the hand-model sides (compared with the implementation by the callers, as before) and records a
+    mismatch for every line whose source-derived side (evaluator of Model/SerializeSrc.lean on the term regenerated from
+    util/serialization.py) is not the hand model's answer."""
+    res = ctx.run_model(DRIVER, lines)
+    hands = []
+    for ln, r in zip(lines, res):
+        op = ln.split(" ", 1)[0]
+        if op in THREE_WAY_OPS and not (op == "jtd" and ln.startswith("jtd plain")) and r != "bad-op" and not r.startswith("err not-utf8") and " || " in r:
+            h, _, sside = r.rpartition(" || ")
+            hands.append(h)
+            out.count("three-way:" + op)
+            if sside != "=":
+                out.mismatches.append(Finding("mismatch:source-derived", {"block": "three-way", "op": op, "line": ln[:600]}, observed=sside[:400], expected=h[:400],
+                                              detail="the function regenerated from util/serialization.py (evaluated on the model's trees) differs from the hand model Model/Serialize.lean on this input"))
+        else:
+            hands.append(r)
+    return hands
+
+
 def check_payloads(ctx, out: Outcome, cases):
     from qcelemental.util import deserialize, serialize
 
@@ -958,7 +1029,7 @@ def check_payloads(ctx, out: Outcome, cases):
                 lines += ["jt json " + t, "mpf " + t]
                 if rec["flat"]["json"] is not None:
                     lines += ["jtd plain " + hx(rec["flat"]["json"].encode("utf-8"))]
-    model = ctx.run_model(DRIVER, lines) if ctx.model_available else None
+    model = run_three(ctx, out, lines) if ctx.model_available else None
     mi = 0
     for rec in impl:
         p = rec["payload"]
@@ -1206,7 +1277,7 @@ def check_envelopes(ctx, out: Outcome, cases):
         jx = json.dumps({"w": [jenv]})
         recs.append((kind, env, mp, jx))
         lines += ["mpd " + mp.hex(), "jxd " + tree(json.loads(jx))]
-    model = ctx.run_model(DRIVER, lines) if ctx.model_available else None
+    model = run_three(ctx, out, lines) if ctx.model_available else None
     for i, (kind, env, mp, jx) in enumerate(recs):
         out.evaluations += 1
         out.count("block:envelope")
@@ -1899,7 +1970,13 @@ def tables_block(ctx, out: Outcome):
     # behavioural cells: does parse_raw(blob, encoding=r_enc) read a payload written with w_enc (arrays included)?
     rd_enc = {"pyd-json": "json", "json-ext": "json-ext", "msgpack-ext": "msgpack-ext"}
     for w in ENCODINGS:
-        blob = mill.serialize(w)
+        try:
+            blob = mill.serialize(w)
+        except Exception as e:  # noqa
+            out.evaluations += 1
+            out.violations.append(Finding("oracle:model_serialize_raises", {"block": "tables", "writer": w}, observed=f"{type(e).__name__}: {e}"[:300],
+                                          detail="a valid AlignmentMill cannot be serialised with a supported encoding"))
+            continue
         # auto
         out.evaluations += 1
         out.count("tables:auto")
@@ -1944,6 +2021,113 @@ def tables_block(ctx, out: Outcome):
 # ----------------------------------------------------------------------------------------------------------------
 
 
+DISPATCH_SPELLINGS = ["json", "json-ext", "msgpack", "msgpack-ext", "JSON", "Json-Ext", "MSGPACK", "MsgPack-EXT", "jSoN", "msgpack_ext", "jsonext", "json ", " json",
+                      "", "msgpack-ex", "msgpack-ext2", "yaml", "bson", "json-EXT", "Msgpack"]
+
+
+def dispatch_block(ctx, out: Outcome):
+    """serialize()/deserialize() dispatch on the encoding STRING (`encoding.lower()` chains): hand model | source-derived |
+    implementation, on every spelling of DISPATCH_SPELLINGS plus random case variants of the four names."""
+    from qcelemental.util import deserialize, serialize
+
+    rng = ctx.rng
+    names = list(DISPATCH_SPELLINGS)
+    for _ in range(ctx.scale(12, 60)):
+        b = rng.choice(ENCODINGS)
+        names.append("".join(c.upper() if rng.random() < 0.5 else c for c in b))
+    payload = {"a": np.arange(6.0).reshape(2, 3), "b": [1, "x"]}
+    lines = ["disp " + hx(n.encode("utf-8")) for n in names]
+    model = run_three(ctx, out, lines) if ctx.model_available else None
+    # ---- evaluation-order corner of jsonext_decode (corrupted envelope: `data` not a hex string AND `dtype` missing): Python raises the
+    #      buffer error of bytes.fromhex(obj["data"]) before the KeyError of obj["dtype"].  The hand model classes it KeyData (documented,
+    #      Props/C10Src.lean: jxHookOrd / jsonext_decode_src_full); here the implementation is compared with the SOURCE-DERIVED side only.
+    if ctx.model_available:
+        corner = []
+        for _ in range(ctx.scale(8, 40)):
+            env = {"_nd_": rng.choice([True, 1, "x"]), "data": rng.choice([5, None, "zz", "abc", [1], "0g", True, "a b", 2.5])}
+            if rng.random() < 0.5:
+                env["shape"] = [2]
+            corner.append(env)
+        clines = ["jxd " + tree({"w": [e]}) for e in corner]
+        cres = ctx.run_model(DRIVER, clines)
+        for env, ln, r in zip(corner, clines, cres):
+            out.evaluations += 1
+            out.count("envelope:order-corner")
+            out.nontrivial(("envelope", "order-corner", repr(env["data"]), "shape" in env))
+            hand, _, sside = r.rpartition(" || ")
+            sside = hand if sside == "=" else sside
+            try:
+                i_dec = tree(deserialize(json.dumps({"w": [env]}), "json-ext"))
+            except Exception as e:  # noqa
+                i_dec = exc_kind(e)
+            if sside != i_dec:
+                out.mismatches.append(Finding("mismatch:source-derived-decode", {"block": "three-way", "op": "jxd", "line": ln}, observed=i_dec, expected=sside,
+                                              detail="corrupted-envelope corner: the implementation differs from jsonext_decode as regenerated from the source"))
+    canon = {}
+    for e in ENCODINGS:
+        try:
+            canon[e] = serialize(payload, e)
+        except Exception as exc:  # noqa
+            out.evaluations += 1
+            out.violations.append(Finding("oracle:dispatch_writer", {"block": "dispatch", "encoding": e}, observed=f"{type(exc).__name__}: {exc}"[:300], expected="a payload",
+                                          detail="serialize(data, <supported encoding name>) raises on a dict holding a (2,3) float64 array"))
+    if len(canon) != len(ENCODINGS):
+        return  # the spellings cannot be classified without the four canonical payloads; the failing input is recorded above
+    wname = {"json": "json_dumps", "json-ext": "jsonext_dumps", "msgpack": "msgpack_dumps", "msgpack-ext": "msgpackext_dumps"}
+    rname = {"json": "json_loads", "json-ext": "jsonext_loads", "msgpack": "msgpack_loads", "msgpack-ext": "msgpackext_loads"}
+    for i, n in enumerate(names):
+        out.evaluations += 1
+        out.count("tables:dispatch-spelling")
+        out.nontrivial(("dispatch", n))
+        case = {"block": "dispatch", "encoding": n}
+        # implementation: which writer / reader does this spelling reach?
+        try:
+            blob = serialize(payload, n)
+            hit = [e for e in ENCODINGS if type(canon[e]) is type(blob) and canon[e] == blob]
+            i_ser = wname[hit[0]] if len(hit) >= 1 else "other"
+            if len(hit) != 1:
+                i_ser = "other"
+        except KeyError:
+            i_ser = "KeyError"
+        except Exception as e:  # noqa
+            i_ser = "exc:" + type(e).__name__
+        i_de = {}
+        for ty, key in ((str, "de-str"), (bytes, "de-bytes")):
+            # a blob of this Python type that every reader of the family parses: the json-ext text / msgpack-ext bytes
+            blob = canon["json-ext"] if ty is str else canon["msgpack-ext"]
+            if key == "de-bytes" and n.lower() == "json-ext":
+                blob = canon["json-ext"].encode()
+            try:
+                back = deserialize(blob, n)
+                i_de[key] = "read" if deep_same(payload, back) is None else "read-differently"
+            except KeyError:
+                i_de[key] = "KeyError"
+            except AssertionError:
+                i_de[key] = "Assertion"
+            except Exception as e:  # noqa
+                i_de[key] = "exc:" + type(e).__name__
+        low = n
+        if n in ENCODINGS:
+            # ORACLE (the property's own clause; only the four supported names as the property spells them — other spellings are a
+            # model tie, not a demand): each name is accepted by serialize, and for the two -ext encodings the reader of the same name
+            # reads the payload (raw arrays included) back; WHICH writer a name reaches is a model tie (mismatch:dispatch-writer)
+            if i_ser in ("KeyError",) or i_ser.startswith("exc:"):
+                out.violations.append(Finding("oracle:dispatch_writer", case, observed=i_ser, expected="a payload", detail="serialize(data, <supported encoding name>) raises"))
+            okkey = "de-str" if low.startswith("json") else "de-bytes"
+            if low.endswith("-ext") and i_de[okkey] != "read":
+                out.violations.append(Finding("oracle:dispatch_reader", case, observed=i_de[okkey], expected="read", detail="deserialize(blob, spelling) does not read what serialize(data, same encoding) wrote"))
+        if model is not None:
+            want = dict(kv.split("=", 1) for kv in model[i].split(" "))
+            got_ser = i_ser
+            if want["ser"] != got_ser:
+                out.mismatches.append(Finding("mismatch:dispatch-writer", case, observed=got_ser, expected=want["ser"], detail="serialize's dispatch on the encoding string differs (implementation vs model)"))
+            for key in ("de-str", "de-bytes"):
+                w = want[key]
+                exp = "read" if w in rname.values() else w
+                if i_de[key] != exp:
+                    out.mismatches.append(Finding("mismatch:dispatch-reader", {**case, "blob": key}, observed=i_de[key], expected=w, detail="deserialize's dispatch on the encoding string differs (implementation vs model)"))
+
+
 def run(ctx: Ctx) -> Outcome:
     out = Outcome()
     # qcelemental prints ("--> Inp: ...") while reconciling user-supplied masses: keep the harness's stdout clean
@@ -1957,6 +2141,7 @@ def run(ctx: Ctx) -> Outcome:
         # oracle-only streams of harness/c10_extra.py; they draw from ctx.rng AFTER the blocks above (existing streams unchanged)
         c10_extra.sizes_block(ctx, out)
         c10_extra.nonfinite_block(ctx, out)
+        dispatch_block(ctx, out)  # drawn last: the older streams are unchanged for a given seed
     out.exhaustive = False
     dist = out.distribution
     out.notes.append(
@@ -1996,6 +2181,10 @@ def replay(ctx: Ctx, case) -> Outcome:
             check_instance(ctx, out, name, obj, case["seed"], files_dir=d, family=("hp-geometry|" + ",".join(trace)) if trace else None)
         elif c10_extra.replay_extra(ctx, out, case):
             pass
+        elif block in ("dispatch", "three-way"):
+            dispatch_block(ctx, out)
+            if block == "three-way" and ctx.model_available and isinstance(case.get("line"), str):
+                run_three(ctx, out, [case["line"]])
         else:
             tables_block(ctx, out)
     return out
